@@ -25,7 +25,15 @@ RULE = ('ordered pairs of 17 dimension classes (7 base, 8 derived, '
         'exhaustively; magnitudes inside a class random. Non-trivial = an '
         '(operation, operand pair) whose outcome (value, exponents or '
         'exception class) was compared with the reference; distinct by '
-        '(class pair, op, magnitude class, shape).')
+        '(class pair, op, magnitude class, shape).'
+        ' Operand forms: quantities built through 7 unit routes (unit text, '
+        '1/(1/u), (u**-1)**-1, (u**2)**0.5, u*u/u, ...), a third '
+        'additionally through a final negative power; arrays built as '
+        'ndarray*unit and by the ArrayQuantity constructor; plain ndarrays '
+        '/ lists of numbers (all zero, containing a zero, non-zero); an '
+        'operand with itself; NaN magnitudes; element-wise agreement of '
+        'array operators with X[i] op Y[i]; bundling and dimensional '
+        'exponents must raise. ')
 ASSUMPTIONS = [
     'plain-number operands are Python int/float (numpy scalars against '
     'array quantities are dispatched by numpy before the library sees them)',
